@@ -124,6 +124,8 @@ const (
 	// a Go runtime panic (index out of range, nil dereference, ...) or a non-error panic value that a
 	// blanket recover() inside golua turned into an ordinary error
 	clsInternal = "INTERNAL"
+	// a one-program template that does not answer (deadlock, endless loop in Go code)
+	clsHang = "HANG"
 )
 
 // internalErr recognises error texts that are recovered Go panics.
@@ -159,6 +161,7 @@ func normMsg(s string) string {
 func topFrame(stack []byte) string {
 	lines := strings.Split(string(stack), "\n")
 	via := ""
+	fallback := ""
 	last := -1
 	for i, l := range lines {
 		if strings.HasPrefix(l, "panic(") {
@@ -178,12 +181,27 @@ func topFrame(stack []byte) string {
 		if strings.HasPrefix(f, "runtime.") || strings.HasPrefix(f, "panic") {
 			continue
 		}
+		if !strings.HasPrefix(f, "github.com/arnodel/golua/") && !strings.HasPrefix(f, "main.") && fallback == "" {
+			// a frame of the Go standard library (strings.Repeat, bytes.Buffer...): remember it, but
+			// prefer the golua function that called it
+			fallback = f
+			continue
+		}
+		if !strings.HasPrefix(f, "github.com/arnodel/golua/") && fallback != "" {
+			if strings.HasPrefix(f, "main.") {
+				return fallback + via
+			}
+			continue
+		}
 		f = cleanFrame(f)
 		if isReleaseHelper(f) {
 			via = "(via ReleaseMem)"
 			continue
 		}
 		return f + via
+	}
+	if fallback != "" {
+		return fallback + via
 	}
 	return "?" + via
 }
@@ -353,6 +371,9 @@ func superviseWorkers(mode string, tier string, n int, extra []string, lineIdx f
 		chunk = 4000
 	}
 	var mu sync.Mutex
+	confirmedHangs := 0 // TIMEOUTs that persisted when the case was run again alone (guarded by mu)
+	hangs := 0          // watchdog verdicts so far (guarded by mu)
+	inflight := 0       // jobs being processed (guarded by mu)
 	var queue []job
 	for i := 0; i < n; i += chunk {
 		queue = append(queue, job{i, min(i+chunk, n)})
@@ -367,21 +388,51 @@ func superviseWorkers(mode string, tier string, n int, extra []string, lineIdx f
 			for {
 				mu.Lock()
 				if len(queue) == 0 {
+					// jobs in flight may still put work back on the queue
+					idle := inflight == 0
 					mu.Unlock()
-					return
+					if idle {
+						return
+					}
+					time.Sleep(50 * time.Millisecond)
+					continue
 				}
 				j := queue[0]
 				queue = queue[1:]
+				inflight++
 				mu.Unlock()
 				for j.from < j.to {
-					lines, stderr, status := runWorker(mode, tier, j, extra, perCaseTimeout)
+					var wenv []string
+					mu.Lock()
+					if hangs >= 10 {
+						// the tree under test hangs on many inputs: do not spend 10 s on each of the rest
+						wenv = []string{"C04_CASE_TIMEOUT=2"}
+					}
+					mu.Unlock()
+					lines, stderr, status := runWorker(mode, tier, j, extra, perCaseTimeout, wenv...)
 					if n := len(lines); n > 0 && status == "ok" {
 						if f := strings.Fields(lines[n-1]); len(f) > 3 && (f[2] == clsTimeo || f[3] == clsTimeo) {
+							mu.Lock()
+							hangs++
+							mu.Unlock()
 							// the worker's watchdog fired: the machine may just be busy, so the case is run
-							// once more, alone, with a 4x longer limit; that result is the one reported
-							l2, _, st2 := runWorker(mode, tier, job{j.from + n - 1, j.from + n}, extra, 180*time.Second, "C04_CASE_TIMEOUT=120")
-							if st2 == "ok" && len(l2) == 1 {
-								lines[n-1] = l2[0]
+							// once more, alone, with a 4x longer limit; that result is the one reported.
+							// Once a few hangs have been confirmed that way the tree under test really hangs
+							// (e.g. a deadlock in the scanner): later watchdog verdicts are then reported as
+							// they are, so that the phase still ends in reasonable time with the inputs.
+							mu.Lock()
+							confirm := confirmedHangs < 3
+							mu.Unlock()
+							if confirm {
+								l2, _, st2 := runWorker(mode, tier, job{j.from + n - 1, j.from + n}, extra, 90*time.Second, "C04_CASE_TIMEOUT=60")
+								if st2 == "ok" && len(l2) == 1 {
+									lines[n-1] = l2[0]
+									if f2 := strings.Fields(l2[0]); len(f2) > 3 && (f2[2] == clsTimeo || f2[3] == clsTimeo) {
+										mu.Lock()
+										confirmedHangs++
+										mu.Unlock()
+									}
+								}
 							}
 						}
 					}
@@ -397,9 +448,14 @@ func superviseWorkers(mode string, tier string, n int, extra []string, lineIdx f
 					}
 					if status == "ok" {
 						// clean exit before the end of the job: the worker's own watchdog reported a hanging
-						// case (its TIMEOUT line is the last one) and stopped
-						j.from += done
-						continue
+						// case (its TIMEOUT line is the last one) and stopped.  The rest of the job goes back
+						// to the queue in small pieces so that all workers share it (hanging inputs cluster).
+						mu.Lock()
+						for a := j.from + done; a < j.to; a += 25 {
+							queue = append(queue, job{a, min(a+25, j.to)})
+						}
+						mu.Unlock()
+						break
 					}
 					// the worker died on case j.from+done
 					idx := j.from + done
@@ -423,6 +479,9 @@ func superviseWorkers(mode string, tier string, n int, extra []string, lineIdx f
 					mu.Unlock()
 					j.from = idx + 1
 				}
+				mu.Lock()
+				inflight--
+				mu.Unlock()
 			}
 		}()
 	}
@@ -513,7 +572,9 @@ func childEnv() []string {
 		}
 		env = append(env, e)
 	}
-	return append(env, "GOMEMLIMIT=3GiB", "GOTRACEBACK=single")
+	// GOLUA_PLUGINS_ROOT="" makes golib.import refuse at once instead of running the Go toolchain
+	// (`go list`, `go build -buildmode=plugin`) on the pool strings
+	return append(env, "GOMEMLIMIT=3GiB", "GOTRACEBACK=single", "GOLUA_PLUGINS_ROOT=")
 }
 
 // fatalClass classifies the stderr of a dead child.
